@@ -36,7 +36,7 @@ TURN_SPELLINGS = [  # (flag value, tls, host:port)
     ("turns:relay.example.org:5349?servername=relay.example.org", True, "relay.example.org:5349"), ("turn:[2001:db8::1]:3478", False, "[2001:db8::1]:3478"),
     ("turns:relay.example.org:443?transport=tcp&sni=alt.example.org&insecure=1&realm=r", True, "relay.example.org:443"),
 ]
-PEERS = ["host-1", "recv-1", "a b", "x&y=z", "p/q?r#s", "me@home:8080", "100%", "é-ü", "semi;colon", "plus+plus", "q=1&join_code=HACK", "%2F%41"]
+PEERS = ["host-1", "recv-1", "a b", "x&y=z", "p/q?r#s", "me@home:8080", "100%", "é-ü", "semi;colon", "plus+plus", "q=1&join_code=HACK", "%2F%41", "left,right", "c,d:e@f,g"]
 
 
 def run(ctx):
@@ -140,6 +140,10 @@ def run(ctx):
         hpn, rpn = PEERS[(2 * i) % len(PEERS)], PEERS[(2 * i + 1) % len(PEERS)]
         g(["--turn-server", flag, "--turn-static-auth-secret", "s3cr3t/+=", "--turn-cred-ttl", f"{ttl}s"] + (["--session-timeout", "0"] if i % 3 == 0 else []),
           f"turn:{flag}", hp=hpn, rp=rpn, turn_secret="s3cr3t/+=", turn_ttl_s=ttl)
+    # peer ids with characters the minted URL carries unescaped in its userinfo (sub-delimiters such as ',' ';' '$' '!'), per scheme
+    for j, pid in enumerate(["left,right", "c,d:e@f,g", "semi;colon", "$!*'()"]):
+        flag, tls, hp = TURN_SPELLINGS[(3 * j) % len(TURN_SPELLINGS)] if j else TURN_SPELLINGS[1]
+        g(["--turn-server", flag, "--turn-static-auth-secret", "k,e;y", "--turn-cred-ttl", "600s"], f"turn:{flag}", hp=pid, rp=pid + ",2", turn_secret="k,e;y", turn_ttl_s=600)
     g(["--turn-server", "turn:a.example:3478,turns:b.example:5349"], "turn-without-secret")
     for pid in PEERS:
         g([], "peer-id:" + pid, hp=pid, rp=pid + "'")
@@ -174,6 +178,8 @@ def run(ctx):
         for who, peer in (("host", d["host_peer"]), ("recv", d["recv_peer"])):
             if r.get(who + "_turn_unexpected"):
                 problems.append(("turn-credentials-without-issuer", who))
+            if want_turn and who + "_turn_issued" in r and len(r.get(who + "_turn") or []) != r[who + "_turn_issued"]:
+                problems.append(("turn-server-count-differs", f"{who}: server issued {r[who + '_turn_issued']} URL(s), the client's envelope handler keeps {[t.get('url') for t in r.get(who + '_turn') or []]}"))
             for t in r.get(who + "_turn") or []:
                 if "err" in t:
                     problems.append(("turn-url-unparsable", f"{t['url']}: {t['err']}"))
@@ -199,7 +205,7 @@ def run(ctx):
         "rule": "net/url subset: strings over URL-significant characters (& = ; % + space # ? / : @ ...), unicode, invalid UTF-8, malformed percent sequences; query strings with repeated/empty/malformed pairs; "
                 "TURN: 9 spellings (turn:/turns:/with and without //, bare host:port, IPv6, query options) x users 'expiry:peerID' with URL-significant peer ids and random users x secrets; "
                 "grid: defaults, each of 12 flags at a small value and at 0, all at 0, all small, random combinations, TURN issuing per spelling (with/without session timeout), TURN servers without secret, 12 peer ids with URL-significant characters; "
-                "per configuration the real CreateSession, buildWebSocketURL + wsclient for host and receiver, peer_list / peer_joined contents, turn_credentials parsed by the real parseTurnServer and compared with an independent HMAC-SHA1 oracle, one addressed message each way",
+                "per configuration the real CreateSession, buildWebSocketURL + wsclient for host and receiver, peer_list / peer_joined contents, turn_credentials envelope handed to the real sender / receiver handleEnvelope, the servers it keeps parsed by the real parseTurnServer and compared with an independent HMAC-SHA1 oracle, one addressed message each way",
         "samples": [cases[0], json.dumps(grid[1])[:200]],
     })
     ctx.assumptions += ["encoding/json, time.Format/Parse(RFC3339), gorilla/websocket and net/http are exercised, not modelled; url.Parse is modelled only for URLs of the shape the server mints",
